@@ -101,6 +101,7 @@ class PinchProblem:
         """
         self._results = None
         self._master_zone = None
+        self._project_name = type(self)._project_name
         if isinstance(source, TargetInput):
             self._problem_data = source
             return self._problem_data
